@@ -61,4 +61,8 @@ def run(res, tier):
         res.floor("WR-2", "C09 shape functions with column accessors", n2, 40)
         ns = sib(p, res)
         res.floor("SIB-2", "sibling operation groups", ns, 6)
+        from . import sign
+        res.rule("SIGN-1", "in res = a - b a write from `b` alone negates, a write from `a` alone does not, a write from both is a subtraction with a before b (add family: no negation, both -> add)")
+        ns = sign.check(p, res, "SIGN-1", ("poulpy_cpu_ref::reference",))
+        res.floor("SIGN-1", "add/sub family functions", ns, 8)
         res.fn_count += n_ow + n2
